@@ -146,6 +146,7 @@ pub enum ReverseStep {
 pub struct ErrorContext {
     err: Xerr,
     location: Option<TokenLocation>,
+    at_runtime: bool,
 }
 
 #[derive(Default, Clone)]
@@ -367,6 +368,7 @@ impl State {
 
     fn build_from_file(&mut self, path: Xstr, mode: ContextMode) -> Xresult {
         let s = crate::file::fs_overlay::read_source_file(&path)?;
+        self.abandon_failed_run();
         let marks = self.build_marks();
         self.context_open(mode)?;
         self.intern_source(s.into(), Some(path))?;
@@ -378,6 +380,7 @@ impl State {
     }
 
     fn build_from_source(&mut self, s: Xstr, mode: ContextMode) -> Xresult {
+        self.abandon_failed_run();
         let marks = self.build_marks();
         self.context_open(mode)?;
         self.intern_source(s, None)?;
@@ -386,6 +389,14 @@ impl State {
             return Err(e);
         }
         self.context_close()
+    }
+
+    // The rest of a program that failed at run time is not resumed by the next source.
+    fn abandon_failed_run(&mut self) {
+        let failed = self.last_error.as_ref().map(|ec| ec.at_runtime).unwrap_or(false);
+        if failed && self.is_running() {
+            self.ctx.ip = self.code_origin();
+        }
     }
 
     fn build_marks(&self) -> BuildMarks {
@@ -461,6 +472,7 @@ impl State {
                 self.last_error = Some(ErrorContext {
                     err: e.clone(),
                     location,
+                    at_runtime: false,
                 });
             }
             e
@@ -969,6 +981,7 @@ impl State {
             self.last_error = Some(ErrorContext {
                 err: e.clone(),
                 location,
+                at_runtime: true,
             });
         }
     }
